@@ -262,8 +262,21 @@ struct smoothed_aggr_emin {
                 }
             }
 
+            // An aggregate that is a whole connected component of the filtered matrix (no row outside the
+            // aggregate sees its column of A*P_tent) has nothing to be smoothed against: the minimisation is
+            // degenerate there (0/0, a singular block denominator, or P driven to zero).  Keep the tentative column.
+            std::vector<char> coupled(nc, 0);
+            for(size_t i = 0; i < n; ++i) {
+                for(Ptr ja = AP->ptr[i], ea = AP->ptr[i+1]; ja < ea; ++ja) {
+                    bool own = false;
+                    for(Ptr jp = P_tent.ptr[i], ep = P_tent.ptr[i+1]; jp < ep; ++jp)
+                        if (P_tent.col[jp] == AP->col[ja]) own = true;
+                    if (!own) coupled[AP->col[ja]] = 1;
+                }
+            }
+
             for(size_t i = 0, m = omega.size(); i < m; ++i)
-                omega[i] = math::is_zero(denum[i]) ? math::zero<Val>() : math::inverse(denum[i]) * omega[i];
+                omega[i] = (!coupled[i] || math::is_zero(denum[i])) ? math::zero<Val>() : math::inverse(denum[i]) * omega[i];
 
             // Update AP to obtain P: P = (P_tent - D^-1 A P Omega)
             /*
